@@ -5,7 +5,7 @@ from props.common import *
 
 ID = 'C01'
 PROPS_MODULE = 'Props.C01'
-THEOREMS = ['C01_level_row', 'C01_level_row_per', 'C01_level_col', 'C01_level_2d', 'C01_per_short_refuted', 'C01_hyps_satisfiable']
+THEOREMS = ['C01_level_row', 'C01_level_row_per', 'C01_level_col', 'C01_level_2d', 'C01_level_2d_per', 'C01_per_short_refuted', 'C01_hyps_satisfiable']
 VO = ['theories/Props/C01.vo', 'theories/Run/RunDwt.vo', 'theories/Run/RunSpec.vo']
 RULE = ('correspondence A: every (L, mode, N) of the grid with the FULL operator matrix of afb1d (all basis inputs), plus '
         'AFB1D/AFB2D/DWT1DForward/DWTForward on seeded integer tensors, compared exactly with the Coq model; correspondence B: '
